@@ -187,6 +187,29 @@ class C01(ProgramProperty):
         walk(r[1])
         return bool(found)
 
+    def type_alias_not_at_line_start(self, case, ctx):
+        """C01-F3 region, decided on the reference tree: some `type X = ...` statement starts behind other text on its line"""
+        r = self.reference(case, ctx)
+        if not r or r[0] != 'ok':
+            return False
+        data = case['text'].encode('utf-8')
+        found = []
+
+        def walk(x):
+            if isinstance(x, dict):
+                if x.get('_') == 'TypeAlias' and x.get('range'):
+                    s0 = x['range'][0]
+                    ls = max(data.rfind(b'\n', 0, s0), data.rfind(b'\r', 0, s0)) + 1
+                    if data[ls:s0].strip(b' \t\x0c\xef\xbb\xbf'):
+                        found.append(s0)
+                for v in x.values():
+                    walk(v)
+            elif isinstance(x, list):
+                for v in x:
+                    walk(v)
+        walk(r[1])
+        return bool(found)
+
     # ---- listed findings (predicates over the concrete text; the generator avoids these regions)
     def known(self, case, f, ctx):
         ids = self.open()
@@ -196,7 +219,7 @@ class C01(ProgramProperty):
             return 'C01-F1'
         if 'C01-F2' in ids and sig == 'rejects_valid' and self.soft_kw_name_line_with_colon(case, ctx):
             return 'C01-F2'
-        if 'C01-F3' in ids and sig == 'rejects_valid' and re.search(r'[;:]\s*type\s+\w+', t):
+        if 'C01-F3' in ids and sig == 'rejects_valid' and re.search(r'[;:]\s*type\s+\w+', t) and self.type_alias_not_at_line_start(case, ctx):
             return 'C01-F3'
         if 'C01-F4' in ids and sig.startswith('tree_differs'):
             import unicodedata
